@@ -629,6 +629,23 @@ impl Program {
         }
     }
 
+    /// Returns whether the token we just consumed directly follows the single
+    /// statement of a `THEN` clause, i.e. whether there is a `THEN` before it
+    /// on this line with no statement separator in between.
+    pub fn prev_token_ends_single_then_statement(&self) -> bool {
+        let Some(prev_index) = self.location.token_index.checked_sub(1) else {
+            return false;
+        };
+        for token in self.tokens()[..prev_index].iter().rev() {
+            match token {
+                Token::Then => return true,
+                Token::Colon => return false,
+                _ => {}
+            }
+        }
+        false
+    }
+
     /// Throw away any remaining tokens.
     pub fn discard_remaining_tokens(&mut self) {
         self.location.token_index = self.tokens().len();
